@@ -413,5 +413,12 @@ var extras = map[string]ruleFn{
 		immutableLoggerRules(c, r, "C20.R11")
 		// the scanner goroutines of two components write two definitions: no two registered names share one
 		definitionRegistryTables(c, r, "", "C20.R12")
+		// the join of the definition scan, by its meaning: interpreted under the scheduler on two schedules
+		defScanRules(c, r, func(row string) string {
+			if row == "joined" {
+				return "C20.R3"
+			}
+			return ""
+		})
 	},
 }
